@@ -29,6 +29,8 @@ var Matchers = []Matcher{
 	{"matchers: [ 'b=\"1\"', 'a!~\"2\"' ]", func(ls map[string]string) bool { return ls["b"] == "1" && !ReFull("2").MatchString(ls["a"]) }},
 	{"match: { a: '1' }", func(ls map[string]string) bool { return ls["a"] == "1" }},
 	{"match_re: { b: '1|3' }", func(ls map[string]string) bool { return ReFull("1|3").MatchString(ls["b"]) }},
+	// a negative regex that also matches the empty string: false for an alert WITHOUT the label
+	{"matchers: [ 'a!~\"|1\"' ]", func(ls map[string]string) bool { return !ReFull("|1").MatchString(ls["a"]) }},
 }
 
 type Node struct {
